@@ -312,7 +312,7 @@ class Ctx:
         return ok
 
     # --- implementation side
-    def go_build(self, name, tags="verif", race=False, test_pkg=None, extra_env=None, timeout=1500):
+    def go_build(self, name, tags="verif", race=False, test_pkg=None, extra_env=None, timeout=1500, overlays=None):
         """build harness/cmd/<name> (or, with test_pkg, `go test -c` of a /repo package with overlay-added
         in-package test files) against /repo's current working tree.  Returns the binary path or None."""
         t = time.time()
@@ -324,16 +324,24 @@ class Ctx:
             open(os.path.join(HARNESS, "go.mod"), "w").write(gm)
             repl = {}
             ovroot = os.path.join(HARNESS, "overlay")
+            # harness/cmd/<name>/overlays.txt (one path relative to harness/overlay per line) selects the overlay
+            # files this harness needs, so that one group's unfinished overlay cannot break another group's build;
+            # without that file every overlay file is injected.
+            sel = None
+            selp = os.path.join(HARNESS, "cmd", name, "overlays.txt")
+            if overlays is not None:
+                sel = set(overlays)
+            elif os.path.exists(selp):
+                sel = set(l.strip() for l in open(selp) if l.strip() and not l.startswith("#"))
             for root, _, files in os.walk(ovroot):
                 for f in files:
                     if f.endswith(".go"):
                         pkg = os.path.relpath(root, ovroot)
-                        if f.endswith("_test.go"):
-                            dst = os.path.join(REPO, pkg, "zz_verif_" + f)
-                        else:
-                            dst = os.path.join(REPO, pkg, "zz_verif_" + f)
+                        if sel is not None and os.path.join(pkg, f) not in sel:
+                            continue
+                        dst = os.path.join(REPO, pkg, "zz_verif_" + f)
                         repl[dst] = os.path.join(root, f)
-            ovj = os.path.join(HARNESS, "overlay.json")
+            ovj = os.path.join(HARNESS, "overlay-%s.json" % name)
             json.dump({"Replace": repl}, open(ovj, "w"))
             os.makedirs(os.path.join(BUILD, "bin"), exist_ok=True)
             tag = "" if REPO == "/repo" else "-" + hashlib.sha1(REPO.encode()).hexdigest()[:8]
